@@ -42,7 +42,7 @@ F4_SIG = "StopAsync:nil-cancel-after-lost-New->Terminated-race"
 GATED = {
     "MC_nilcancel": dict(nc=2, nl=0, wrun=[], wterm=[]),
     "MC_gated_core": dict(nc=2, nl=1, wrun=[], wterm=[]),
-    "MC_gated_core3": dict(nc=2, nl=1, wrun=[], wterm=[]),
+    "MC_gated_timer_w": dict(nc=1, nl=0, wrun=[1], wterm=[2]),
     "MC_gated_modes": dict(nc=1, nl=1, wrun=[], wterm=[]),
     "MC_gated_nilfn5": dict(nc=1, nl=1, wrun=[], wterm=[]),
     "MC_gated_wait": dict(nc=1, nl=0, wrun=[1], wterm=[2]),
@@ -137,7 +137,7 @@ def run(ctx):
         # pinned code violates NoNilCancelCall; its counterexample is replayed. The quick tier takes the same witness from the
         # behaviours of MC_gated_core (a printed state with nilCalls > 0 is a counterexample of the invariant).
         gated = ["MC_gated_core", "MC_gated_modes", "MC_gated_wait", "MC_gated_nilfn"] if quick else \
-                ["MC_gated_core3", "MC_gated_wait", "MC_gated_nilfn5", "MC_gated_lw", "MC_gated_l2"]
+                ["MC_gated_core", "MC_gated_modes", "MC_gated_timer_w", "MC_gated_wait", "MC_gated_nilfn5", "MC_gated_lw", "MC_gated_l2"]
         mg = [("MC_mgated_one", None, None), ("MC_mgated_cover" if quick else "MC_mgated_cover1", None, None), ("MC_mgated_sim", "num=%d" % (40 if quick else 400), 40)]
         if not quick:
             mg.append(("MC_mgated_sim3", "num=300", 60))
